@@ -65,6 +65,15 @@ def _merge(agg, res):
     if len(agg["samples"]) < 3:
         agg["samples"].extend(res.get("samples", [])[:1])
     agg["funcs"].update(res.get("funcs", []))
+    if res.get("inconclusive_cycles"):
+        agg.setdefault("inconclusive_cycles", [])
+        for c in res["inconclusive_cycles"]:
+            if c not in agg["inconclusive_cycles"] and len(agg["inconclusive_cycles"]) < 10:
+                agg["inconclusive_cycles"].append(c)
+    if "lpredict" in res:
+        lp = agg.setdefault("lpredict", {})
+        for k, v in res["lpredict"].items():
+            lp[k] = lp.get(k, 0) + v
     if len(agg["smt"]) < 6:
         agg["smt"].extend(res.get("smt", [])[:2])
 
